@@ -10,9 +10,9 @@ Theorem C02_leaf_self : forall s src text nm k c,
 Proof.
   intros s src text nm k c Hk Ht. unfold st_match_terminal, kinds_matching.
   rewrite Hk, N.eqb_refl. cbn [orb andb].
-  assert (E : Base.Sort.str_eqb text (text_of src c) = true).
-  { rewrite Ht. clear. induction (text_of src c) as [|x l IH]; cbn; [reflexivity|].
-    rewrite N.eqb_refl, IH. reflexivity. }
+  assert (R : forall l, Base.Sort.str_eqb l l = true).
+  { intros l. induction l as [|x l IH]; cbn; [reflexivity|]. rewrite N.eqb_refl, IH. reflexivity. }
+  assert (E : Base.Sort.str_eqb text (text_of src c) = true) by (rewrite Ht; apply R).
   rewrite E, orb_true_r. reflexivity.
 Qed.
 Print Assumptions C02_leaf_self.
